@@ -30,6 +30,7 @@ var registry = []*HarnessSpec{
 	{Prop: "C17", Name: "zzH17d", Pkg: pkgCrhttp, Tier: "quick", Bounds: "Handler.ServeHTTP for the paths /, /metrics, /debug/pprof/, /_/api/interfaces, /other with nothing optional enabled; mux dispatch and banner are environment stubs"},
 	{Prop: "C17", Name: "zzH17e", Pkg: pkgCorerad, Extra: []string{pkgConfig}, Tier: "quick", Unwind: 600, Bounds: "scrape of one advertising interface carrying the stanzas of one kind only (9 kinds incl. deprecated explicit prefix, deprecated route, wildcards), prepared or never prepared, real parser, symbolic lifetimes and clock"},
 	{Prop: "C17", Name: "zzH17f", Pkg: pkgCrhttp, Extra: []string{pkgConfig}, Tier: "quick", Unwind: 200, Bounds: "debug-API request for one never-initialised advertising interface carrying the stanzas of one kind only (9 kinds), real parser, symbolic lifetimes"},
+	{Prop: "C17", Name: "zzH17g", Pkg: pkgCrhttp, Tier: "quick", Bounds: "three successive debug-API requests for one static advertising interface: before initialisation, after initialisation, after re-initialisation with another hardware address; forwarding symbolic at each request"},
 	{Prop: "C17", Name: "zzH17c", Pkg: pkgCrhttp, Tier: "quick", Bounds: "all four (prometheus, pprof) combinations"},
 	{Prop: "C17", Name: "zzH17a", Pkg: pkgCorerad, Tier: "quick", Unwind: 600, Bounds: "three interfaces (advertising with one stanza of every kind parsed by the real parser, monitoring, neither) in 3 orders; plugins prepared or never prepared; forwarding/autoconf per interface symbolic; lifetimes symbolic"},
 	{Prop: "C04", Name: "zzH17a", Pkg: pkgCorerad, Tier: "quick", Unwind: 600, Bounds: "metrics-scrape path: forwarding read per scrape, misconfiguration gauge iff not forwarding with a non-zero configured lifetime"},
